@@ -116,6 +116,10 @@ Lemma h_pure_l {A} (I : fsT -> Prop) (R : Prop) (m : M A) (Q : A -> fsT -> Prop)
   (R -> hoare I m Q E) -> hoare (fun g => R /\ I g) m Q E.
 Proof. intros H s [Hr Hs]. apply (H Hr s Hs). Qed.
 
+Lemma h_ex {A X} (P : X -> fsT -> Prop) (m : M A) (Q : A -> fsT -> Prop) (E : fsT -> Prop) :
+  (forall x, hoare (P x) m Q E) -> hoare (fun g => exists x, P x g) m Q E.
+Proof. intros H s [x Hs]. apply (H x s Hs). Qed.
+
 Lemma h_mapM {A} (I : fsT -> Prop) (E : fsT -> Prop) (f : A -> M unit) (l : list A) :
   (forall x, In x l -> hoare I (f x) (fun _ => I) E) -> hoare I (mapM_ f l) (fun _ => I) E.
 Proof.
